@@ -556,6 +556,49 @@ pub fn run_bulk_selected(ctx: &Ctx, prefix: &str, is_async: bool, which: &[&str]
             }
         }).trace(60));
     }
+    // (2z) messages whose first four bytes spell a magic number: the storage pattern, the serial
+    // header pattern and their neighbours as HTYP / MCNT / LEN of a standard header (no storage mode:
+    // the bytes ARE the header; storage mode: they follow a storage header)
+    if which.contains(&"len_sweep") {
+        let magics: Vec<[u8; 4]> = vec![*b"DLT\x01", *b"DLS\x01", *b"DLT\x02", *b"DLS\x00", *b"DLT\x00", [0x44, 0x4C, 0x00, 0x08], [0x44, 0x00, 0x53, 0x01], [0x00, 0x4C, 0x53, 0x01], *b"NWST"];
+        let sp = Space::new(&[magics.len(), 2, 3, 2]);
+        let s2 = sp.clone();
+        let magics = &magics;
+        ctx.run_family(Family::new(format!("{}.bulk.magic_headers", prefix), sp.size(), "a message whose standard header (HTYP, MCNT, LEN) spells DLT\\x01 / DLS\\x01 / near misses, with the body its LEN declares, between ordinary messages x storage mode x {first, middle, last in the stream} x 2 schedules: delivered as cut like any other".to_string(), move |i, loc| {
+            let c = s2.coords(i);
+            let (m, storage, place) = (magics[c[0]], c[1] == 1, c[2]);
+            let pat = if c[3] == 0 { Pattern { chunk: 0, disturb_every: 0 } } else { Pattern { chunk: 7, disturb_every: 3 } };
+            let len = ((m[2] as usize) << 8) | m[3] as usize;
+            let mut special = vec![];
+            if storage {
+                special.extend_from_slice(STORAGE_HDR);
+            }
+            special.extend_from_slice(&m);
+            for k in 4..len.max(4) {
+                special.push(if k % 9 == 8 { 0 } else { 0x20 + (k % 64) as u8 });
+            }
+            let mut s = vec![];
+            if place > 0 {
+                verbose_message(1, storage, &mut s);
+            }
+            s.extend_from_slice(&special);
+            if place < 2 {
+                verbose_message(2, storage, &mut s);
+                verbose_message(3, storage, &mut s);
+            }
+            let s = Arc::new(s);
+            loc.evals += 1;
+            loc.traces += 1;
+            loc.state(i + 0x2f00_0000, true);
+            match run_reader(is_async, &s, storage, pat, Cap::Minimal, None) {
+                Ok(st) => {
+                    loc.transitions += st.deliveries + st.disturbances;
+                    loc.outcome_n("results as the slice parser gives them", st.messages + st.piece_errors);
+                }
+                Err(why) => viol(loc, &key_of(&why), format!("standard header bytes {:02x?} (declared length {}), storage mode {}, place {}; {}", m, len, storage, place, pat.describe(is_async)), why),
+            }
+        }));
+    }
     // (3a) the default constructor on the largest messages: its own maximum-length constant, not the
     // one the minimal-capacity readers of the length sweep are built with
     if which.contains(&"default_capacity") {
